@@ -513,12 +513,15 @@ func fileSeek(L *LState) int {
 		return 2
 	}
 
-	top := L.GetTop()
-	if top == 1 {
-		L.Push(LString("cur"))
-		L.Push(LNumber(0))
-	} else if top == 2 {
-		L.Push(LNumber(0))
+	// whence and offset are optional; an explicit nil is an absent argument (luaL_opt*)
+	if L.GetTop() < 3 {
+		L.SetTop(3)
+	}
+	if L.Get(2) == LNil {
+		L.Replace(2, LString("cur"))
+	}
+	if L.Get(3) == LNil {
+		L.Replace(3, LNumber(0))
 	}
 
 	var pos int64
@@ -646,7 +649,7 @@ errreturn:
 }
 
 func ioInput(L *LState) int {
-	if L.GetTop() == 0 {
+	if L.GetTop() == 0 || L.Get(1) == LNil {
 		L.Push(fileDefIn(L))
 		return 1
 	}
@@ -705,7 +708,7 @@ func ioLinesIter(L *LState) int {
 }
 
 func ioLines(L *LState) int {
-	if L.GetTop() == 0 {
+	if L.GetTop() == 0 || L.Get(1) == LNil {
 		if fileDefIn(L).Value.(*lFile).closed {
 			L.RaiseError("file is already closed")
 		}
@@ -727,7 +730,8 @@ var ioOpenOpions = []string{"r", "rb", "w", "wb", "a", "ab", "r+", "rb+", "w+", 
 
 func ioOpenFile(L *LState) int {
 	path := L.CheckString(1)
-	if L.GetTop() == 1 {
+	if L.GetTop() == 1 || L.Get(2) == LNil { // the mode is optional; nil is an absent argument
+		L.SetTop(1)
 		L.Push(LString("r"))
 	}
 	mode := os.O_RDONLY
@@ -828,7 +832,7 @@ func ioTmpFile(L *LState) int {
 }
 
 func ioOutput(L *LState) int {
-	if L.GetTop() == 0 {
+	if L.GetTop() == 0 || L.Get(1) == LNil {
 		L.Push(fileDefOut(L))
 		return 1
 	}
